@@ -323,7 +323,7 @@ pub async fn scenario(w: World, h: Hist, trace: bool) -> Outcome {
     'ops: for (oi, op) in h.ops.iter().enumerate() {
         out.ops_executed = oi + 1;
         if trace {
-            out.trace.push(format!("#{oi} {}", op.encode()));
+            out.trace.push(format!("#{oi} {}   (at +{} ms)", op.encode(), (sim.now() - EPOCH_NS) / MS));
         }
         match op {
             Op::Freeze(on) => {
